@@ -297,3 +297,52 @@ def residue_scan(text, where=''):
         if mo:
             ctx = text[max(0, mo.start() - 40):mo.end() + 40].replace('\n', ' ')
             raise ExtractionBreak('%s: C++ residue (%s) after rewriting: ...%s...' % (where, what, ctx))
+
+
+def propagate_exc(body, callees, ret_zero):
+    """After every *simple statement* that calls one of `callees` (C names, may throw) insert
+    `if (verif_exc) return <ret_zero>;`.  Statements that start with `return` need no check (the callee returns a
+    zero value and the flag stays set).  Calls inside `if (...)`/`while (...)`/`for (...)` headers are not handled:
+    raise so that a bespoke rule is written for them.  Returns (body, n_inserted)."""
+    n = 0
+    pos = 0
+    pat = re.compile(r'\b(' + '|'.join(re.escape(c) for c in callees) + r')\s*\(')
+    while True:
+        m = mask(body)
+        mo = pat.search(m, pos)
+        if not mo:
+            return body, n
+        # statement start: previous ; { } at any depth
+        s = mo.start()
+        while s > 0 and m[s - 1] not in ';{}':
+            s -= 1
+        stmt_head = m[s:mo.start()]
+        # statement end: next ';' at paren depth 0 counted from the statement start
+        depth = 0
+        e = s
+        while e < len(m):
+            ch = m[e]
+            if ch in '([':
+                depth += 1
+            elif ch in ')]':
+                depth -= 1
+            elif ch == ';' and depth == 0:
+                break
+            elif ch in '{}' and depth == 0:
+                break
+            e += 1
+        if e >= len(m) or m[e] != ';':
+            raise ExtractionBreak('call to %s inside a statement header: needs a bespoke rule' % mo.group(1))
+        head = stmt_head.strip()
+        if re.match(r'(if|while|for|switch)\b', head):
+            raise ExtractionBreak('call to %s inside a control header: needs a bespoke rule' % mo.group(1))
+        if re.match(r'return\b', head):
+            pos = e + 1
+            continue
+        ins = ' if (verif_exc) return %s;' % ret_zero if ret_zero != '' else ' if (verif_exc) return;'
+        if body[e + 1:e + 1 + len(ins)] == ins:
+            pos = e + 1 + len(ins)
+            continue
+        body = body[:e + 1] + ins + body[e + 1:]
+        n += 1
+        pos = e + 1 + len(ins)
